@@ -665,11 +665,15 @@ func parseNumber(s []byte) (Object, error) {
 		return Integer(x), nil
 	}
 
-	y, err := strconv.ParseFloat(string(s), 64)
-	if err == strconv.ErrRange {
-		return nil, &postScriptError{eLimitcheck, fmt.Sprintf("number %q out of range", s)}
-	} else if err == nil && !math.IsInf(y, 0) && !math.IsNaN(y) {
-		return Real(y), nil
+	// ParseFloat also accepts hexadecimal floating-point numbers like
+	// "0x1p-2", which are not numbers in PostScript.
+	if !bytes.ContainsAny(s, "xX") {
+		y, err := strconv.ParseFloat(string(s), 64)
+		if err == strconv.ErrRange {
+			return nil, &postScriptError{eLimitcheck, fmt.Sprintf("number %q out of range", s)}
+		} else if err == nil && !math.IsInf(y, 0) && !math.IsNaN(y) {
+			return Real(y), nil
+		}
 	}
 
 	mm := radixNumberRe.FindSubmatch(s)
